@@ -13,79 +13,39 @@ import (
 	"os"
 	"sync/atomic"
 
+	"verif/mc/dmaworld"
 	"verif/mc/explore"
 	"verif/mc/harness"
 )
 
-func dmaScenarios(thorough bool) []harness.Scenario {
-	bound := 2
-	if thorough {
-		bound = 3
-	}
-	var scs []harness.Scenario
-	add := func(c dmaCfg, b int) {
-		scs = append(scs, harness.Scenario{Name: c.Name, Bound: b, Body: dmaBody(c)})
-	}
-	// one queue: H2D across a page boundary (two GPUs), then D2H of a sub-range
-	add(dmaCfg{Name: "b/2gpu/h2d-then-d2h/page-crossing", NGPU: 2, Pages: 2, MaxReq: 4,
-		Jobs: []dmaJob{{Queue: 0, H2D: true, Off: bPage - 70, Len: 140}, {Queue: 0, H2D: false, Off: bPage - 65, Len: 130}}}, bound)
-	// unaligned short copies inside one line and across one line boundary
-	add(dmaCfg{Name: "b/1gpu/unaligned-lines", NGPU: 1, Pages: 1, MaxReq: 4,
-		Jobs: []dmaJob{{Queue: 0, H2D: true, Off: 3, Len: 61}, {Queue: 0, H2D: true, Off: 63, Len: 3}, {Queue: 0, H2D: false, Off: 1, Len: 67}}}, bound)
-	// two queues in flight at once, disjoint ranges, DMA limited to one request at a time
-	add(dmaCfg{Name: "b/1gpu/two-queues/maxreq1", NGPU: 1, Pages: 1, MaxReq: 1,
-		Jobs: []dmaJob{{Queue: 0, H2D: true, Off: 0, Len: 65}, {Queue: 1, H2D: true, Off: 128, Len: 70}, {Queue: 0, H2D: false, Off: 0, Len: 65}, {Queue: 1, H2D: false, Off: 130, Len: 64}}}, bound)
-	add(dmaCfg{Name: "b/2gpu/two-queues/maxreq2/cycles3", NGPU: 2, Pages: 2, MaxReq: 2, Cycles: 3,
-		Jobs: []dmaJob{{Queue: 0, H2D: true, Off: bPage - 3, Len: 67}, {Queue: 1, H2D: true, Off: 200, Len: 64}, {Queue: 1, H2D: false, Off: 199, Len: 66}, {Queue: 0, H2D: false, Off: bPage - 1, Len: 2}}}, bound)
-	// buffers dirty as after a kernel: every copy is preceded by a flush of BOTH GPUs although it touches one
-	add(dmaCfg{Name: "b/2gpu/dirty/flush-all-copy-one", NGPU: 2, Pages: 2, MaxReq: 4, Dirty: true,
-		Jobs: []dmaJob{{Queue: 0, H2D: true, Off: 5, Len: 60}, {Queue: 0, H2D: false, Off: 5, Len: 60}}}, bound)
-	// kernels on two queues of ONE process, each followed by a D2H of its output: the explorer owns the kernels'
-	// completion times, the flush acknowledgement delays and the memory responses
-	add(dmaCfg{Name: "b/1gpu/two-queues/kernel-then-d2h", NGPU: 1, Pages: 1, MaxReq: 4,
-		Jobs: []dmaJob{{Queue: 0, Kernel: true, Off: 0, Len: 70}, {Queue: 1, Kernel: true, Off: 256, Len: 66}, {Queue: 0, Off: 0, Len: 70}, {Queue: 1, Off: 255, Len: 68}}}, bound)
-	add(dmaCfg{Name: "b/1gpu/sibling-contexts/kernel-then-d2h", NGPU: 1, Pages: 1, MaxReq: 4, QueueCtx: []int{0, 1},
-		Jobs: []dmaJob{{Queue: 0, Kernel: true, Off: 3, Len: 61}, {Queue: 1, Kernel: true, Off: 128, Len: 64}, {Queue: 0, Off: 3, Len: 61}, {Queue: 1, Off: 128, Len: 64}}}, bound)
-	if thorough {
-		add(dmaCfg{Name: "b/2gpu/two-queues/kernel-then-d2h-then-h2d/page-crossing", NGPU: 2, Pages: 2, MaxReq: 2, QueueCtx: []int{0, 1},
-			Jobs: []dmaJob{{Queue: 0, Kernel: true, Off: bPage - 40, Len: 80}, {Queue: 1, Kernel: true, Off: 512, Len: 64}, {Queue: 0, Off: bPage - 40, Len: 80},
-				{Queue: 1, Off: 512, Len: 64}, {Queue: 1, H2D: true, Off: 512, Len: 32}, {Queue: 1, Off: 510, Len: 40}}}, 2)
-		add(dmaCfg{Name: "b/3gpu/three-pages/4KiB-pages", NGPU: 3, Pages: 3, MaxReq: 4, Log2Page: 12,
-			Jobs: []dmaJob{{Queue: 0, H2D: true, Off: 4096 - 3, Len: 4096 + 5}, {Queue: 0, H2D: false, Off: 4096 - 1, Len: 4096 + 2}}}, 1)
-		add(dmaCfg{Name: "b/4gpu/two-queues", NGPU: 4, Pages: 4, MaxReq: 4, Cycles: 1,
-			Jobs: []dmaJob{{Queue: 0, H2D: true, Off: bPage - 1, Len: 66}, {Queue: 1, H2D: true, Off: 3*bPage - 65, Len: 129}, {Queue: 0, H2D: false, Off: bPage - 1, Len: 66}, {Queue: 1, H2D: false, Off: 3*bPage - 64, Len: 127}}}, 2)
-	}
-	return scs
-}
-
 // dmaLattice: every (offset,length) with both ends in the boundary alphabet
 // around 64-byte lines and the page boundary, default schedule (bound 0).
-func dmaLattice(thorough bool) []dmaCfg {
+func dmaLattice(thorough bool) []dmaworld.Cfg {
 	var pts []uint64
-	for _, b := range []uint64{0, 64, 128, bPage - 128, bPage - 64, bPage, bPage + 64} {
+	for _, b := range []uint64{0, 64, 128, dmaworld.BPage - 128, dmaworld.BPage - 64, dmaworld.BPage, dmaworld.BPage + 64} {
 		for _, d := range []int64{-1, 0, 1, 3} {
 			if x := int64(b) + d; x >= 0 {
 				pts = append(pts, uint64(x))
 			}
 		}
 	}
-	var out []dmaCfg
+	var out []dmaworld.Cfg
 	for _, ng := range []int{1, 2} {
 		for _, lo := range pts {
 			for _, hi := range pts {
 				if hi <= lo || hi-lo > 400 {
 					continue // long copies only add more of the same 64-byte transactions
 				}
-				out = append(out, dmaCfg{Name: fmt.Sprintf("b-lattice/%dgpu/[%d,%d)", ng, lo, hi), NGPU: ng, Pages: 2, MaxReq: 4, NoStall: true, NoDelays: true,
-					Jobs: []dmaJob{{Queue: 0, H2D: true, Off: lo, Len: hi - lo}, {Queue: 0, H2D: false, Off: lo, Len: hi - lo}}})
+				out = append(out, dmaworld.Cfg{Name: fmt.Sprintf("b-lattice/%dgpu/[%d,%d)", ng, lo, hi), NGPU: ng, Pages: 2, MaxReq: 4, NoStall: true, NoDelays: true,
+					Jobs: []dmaworld.Job{{Queue: 0, H2D: true, Off: lo, Len: hi - lo}, {Queue: 0, H2D: false, Off: lo, Len: hi - lo}}})
 			}
 		}
 	}
 	// copies spanning three pages (4 KiB pages, three GPUs)
 	for _, lo := range []uint64{4096 - 65, 4096 - 1, 4096} {
 		for _, hi := range []uint64{2 * 4096, 2*4096 + 1, 2*4096 + 65} {
-			out = append(out, dmaCfg{Name: fmt.Sprintf("b-lattice/3gpu/4KiB/[%d,%d)", lo, hi), NGPU: 3, Pages: 3, MaxReq: 4, Log2Page: 12, NoStall: true, NoDelays: true,
-				Jobs: []dmaJob{{Queue: 0, H2D: true, Off: lo, Len: hi - lo}, {Queue: 0, H2D: false, Off: lo, Len: hi - lo}}})
+			out = append(out, dmaworld.Cfg{Name: fmt.Sprintf("b-lattice/3gpu/4KiB/[%d,%d)", lo, hi), NGPU: 3, Pages: 3, MaxReq: 4, Log2Page: 12, NoStall: true, NoDelays: true,
+				Jobs: []dmaworld.Job{{Queue: 0, H2D: true, Off: lo, Len: hi - lo}, {Queue: 0, H2D: false, Off: lo, Len: hi - lo}}})
 		}
 	}
 	return out
@@ -101,8 +61,8 @@ func rep(r *harness.Run, sig, msg string, c any) {
 }
 
 type latticeCase struct {
-	Part string `json:"part"`
-	Cfg  dmaCfg `json:"cfg"`
+	Part string       `json:"part"`
+	Cfg  dmaworld.Cfg `json:"cfg"`
 }
 
 func main() {
@@ -166,7 +126,7 @@ func main() {
 	var bLat int64
 	bDone := r.ForEach(len(lat), func(i int) {
 		ex := &explore.Explorer{Bound: 0}
-		_, v, infra := ex.RunOne(dmaBody(lat[i]), nil, false)
+		_, v, infra := ex.RunOne(dmaworld.Body(lat[i]), nil, false)
 		if infra != "" {
 			r.Infra("%s: %s", lat[i].Name, infra)
 		}
@@ -184,7 +144,7 @@ func main() {
 	}
 
 	// ---- (b) interleavings
-	r.RunScenarios(dmaScenarios(r.Thorough()))
+	r.RunScenarios(dmaworld.Scenarios(r.Thorough()))
 
 	ex := r.Cov["exhaustive"] == true && aDone && cDone && bDone
 	r.Cov["exhaustive"] = ex
@@ -248,7 +208,7 @@ func replay(r *harness.Run) {
 		json.Unmarshal(f.Case, &c)
 		c.Cfg.NoStall, c.Cfg.NoDelays = true, true
 		ex := &explore.Explorer{Bound: 0}
-		x, v, infra := ex.RunOne(dmaBody(c.Cfg), nil, true)
+		x, v, infra := ex.RunOne(dmaworld.Body(c.Cfg), nil, true)
 		for _, l := range x.Trace {
 			fmt.Println(l)
 		}
@@ -262,7 +222,7 @@ func replay(r *harness.Run) {
 	case "d":
 		platformReplay(r, f.Case)
 	default:
-		r.RunScenarios(append(dmaScenarios(false), dmaScenarios(true)...)) // explorer replay; exits
+		r.RunScenarios(append(dmaworld.Scenarios(false), dmaworld.Scenarios(true)...)) // explorer replay; exits
 	}
 	if atomic.LoadInt32(&reported) > 0 {
 		os.Exit(1)
